@@ -26,6 +26,21 @@ func runC11(c *Ctx, r *Report) {
 	c11R6(c, r, "C11.R6")
 	c11TryAgain(c, r, "C11.R7")
 	c11Defaults(c, r, "C11.R8")
+	// an upstream at its connection limit is not given another connection: every policy returns only upstreams
+	// for which available() (health AND limits) holds - the policy tables of C10 with full pool states
+	tmp := newReport("tmp")
+	c10Policies(c, tmp)
+	r.rule("C11.R9", "every selection policy returns only upstreams that are available (healthy and below their connection limits), evaluated over full pool states (C10.R1)", 6)
+	for _, o := range tmp.Obls {
+		if o.Rule == "C10.R1" {
+			parts := strings.SplitN(o.Key, "|", 3)
+			if o.OK {
+				r.ok("C11.R9", parts[1], parts[2], o.Pos, o.Detail)
+			} else {
+				r.bad("C11.R9", parts[1], parts[2], o.Pos, o.Detail)
+			}
+		}
+	}
 }
 
 func c11R1(c *Ctx, r *Report, rule string) {
